@@ -725,10 +725,57 @@ def meadows_loader():
     for frag in ("for t, task in enumerate(data['tasks']):", "task_meta = task.get('task', {})",
                  "if task_meta.get('task_type') != 'multiarrange':", "[s['name'] for s in task['stimuli']]",
                  "utvs.append(task['rdm'])", "tnames.append(task_meta['name'])", 'tidx.append(t)',
-                 'if len(utvs) == 0:', 'stimuli != task_stimuli:'):
+                 'if len(utvs) == 0:'):
         need(frag in src, f'json loader: `{frag}` not found')
     out['ml_json_type'] = enc('multiarrange')
     return out
+
+
+def meadows_json_loop():
+    """load_rdms_comps_json: the test that decides whether a *later* multi-arrangement task is kept.
+    Each task's `rdm` is laid out in that task's own stimulus order and only the first task's
+    labels are kept, so the test matters: code 1 = the lists are compared as lists
+    (`stimuli != task_stimuli` skips), 2 = compared after `sorted`, 3 = as `set`s, 4 = by `len`.
+    The loop must have the shape: skip non-multiarrange; first kept task fixes `stimuli`; a later one
+    failing the test is skipped with a warning; otherwise rdm / name / index are appended."""
+    fn = _func('io/meadows.py', 'load_rdms_comps_json')
+    loops = [n for n in ast.walk(fn) if isinstance(n, ast.For)]
+    need(len(loops) == 1 and u(loops[0].iter) == "enumerate(data['tasks'])"
+         and u(loops[0].target).strip('()') == 't, task' and not loops[0].orelse, 'one loop over the tasks')
+    body = loops[0].body
+    need([u(x) for x in body[:2]] == ["task_meta = task.get('task', {})",
+                                      "if task_meta.get('task_type') != 'multiarrange':\n    continue"],
+         'non-multiarrange tasks are skipped first')
+    need(len(body) == 7 and u(body[2]) == "task_stimuli = [s['name'] for s in task['stimuli']]",
+         'task_stimuli = names of the task\'s stimuli')
+    need([u(x) for x in body[4:]] == ["utvs.append(task['rdm'])", "tnames.append(task_meta['name'])",
+                                      'tidx.append(t)'], 'rdm / name / index appended after the test')
+    first = body[3]
+    need(isinstance(first, ast.If) and u(first.test) == 'len(utvs) == 0'
+         and [u(x) for x in first.body] == ['stimuli = task_stimuli'] and len(first.orelse) == 1,
+         'if len(utvs) == 0: stimuli = task_stimuli / else: <test>')
+    later = first.orelse[0]
+    need(isinstance(later, ast.If) and not later.orelse
+         and [u(x) for x in later.body] == ['warnings.warn(STIM_MISMATCH)', 'continue'],
+         'a later task failing the test is skipped with a warning')
+    t = later.test
+    need(isinstance(t, ast.Compare) and len(t.ops) == 1 and isinstance(t.ops[0], ast.NotEq),
+         '<a> != <b> decides')
+    sides = sorted([u(t.left), u(t.comparators[0])])
+    codes = {('stimuli', 'task_stimuli'): 1,
+             ('sorted(stimuli)', 'sorted(task_stimuli)'): 2,
+             ('set(stimuli)', 'set(task_stimuli)'): 3,
+             ('len(stimuli)', 'len(task_stimuli)'): 4}
+    need(tuple(sides) in codes, f'unknown stimulus test `{u(t)}`')
+    # nothing else in the function touches the accumulators
+    stores = sorted(u(n.value) for n in ast.walk(fn) if isinstance(n, ast.Assign)
+                    and any(u(x) == 'stimuli' for x in n.targets))
+    need(stores == ['[]', 'task_stimuli'], f'`stimuli` assigned elsewhere: {stores}')
+    for acc in ('utvs', 'tnames', 'tidx'):
+        calls = [u(n) for n in ast.walk(fn) if isinstance(n, ast.Call) and isinstance(n.func, ast.Attribute)
+                 and u(n.func.value) == acc]
+        need(len(calls) == 1, f'`{acc}` modified elsewhere: {calls}')
+    return {'ml_json_same': codes[tuple(sides)]}
 
 
 def spm_constants():
@@ -977,6 +1024,7 @@ def _derive():
     emit_group(['ml_stem_idx', 'ml_stem_sep', 'ml_rdm_keys', 'ml_single_vars', 'ml_stim_prefix_len',
                 'ml_stim_prefix', 'ml_pname_join', 'ml_pname_from', 'ml_pname_split', 'ml_utv_prefix',
                 'ml_utv_from', 'ml_utv_to', 'ml_json_type'], meadows_loader)
+    emit_group(['ml_json_same'], meadows_json_loop)
     emit_group(['sp_name_sep', 'sp_run_tok', 'sp_run_lo', 'sp_run_hi_back', 'sp_name_tok',
                 'sp_reloc_from', 'sp_reloc_to', 'sp_reloc_anchor'], spm_constants)
 
